@@ -1038,7 +1038,8 @@ func genMDLine(r *mon.Rng, c *schemaCase, pool []seriesD, k int) mdExp {
 		full += ";" + strings.Join(sh, ";")
 	}
 	vt, _ := genValueToken(r)
-	ts := int64(1500000000 + k) // unique per line of the case: identifies the record in a POST body
+	// unique per line of the case (identifies the record in a POST body); the bases are more than 1000 apart
+	ts := int64(r.PickInt([]int{1500000000, 1500000000, 1500000000, 1000, 2147483000, 2147483648, 3000000000, 4294966000})) + int64(k)
 	tt := strconv.FormatInt(ts, 10)
 	switch r.Intn(40) {
 	case 0:
